@@ -572,6 +572,32 @@ pub fn families(cfg: &FamCfg) -> Vec<Shape> {
         let mut one = vec![poly(&pl(&t2))];
         one.insert(0, empty_pg.clone());
         push(&mut v, AG::Polys(vec![pl(&t2)]), Geometry::MultiPolygon(MultiPolygon(one)), "EMPTYMEM");
+        // ... the same as members of a collection (a Multi* with an empty part is only ever *skipped as a member* inside a collection)
+        {
+            let (l1, l2): (Vec<IP>, Vec<IP>) = (vec![(0, 0), (2, 1)], vec![(0, 2), (1, 2), (2, 2)]);
+            for k in 0..3usize {
+                let mut ml = vec![ls(&l1), ls(&l2)];
+                ml.insert(k, LineString::new(vec![]));
+                push(&mut v, AG::Lines(vec![l1.clone(), l2.clone()]), gcw(vec![Geometry::MultiLineString(MultiLineString(ml))]), "EMPTYMEM");
+                let mut m = vec![poly(&pl(&t1)), poly(&pl(&t2))];
+                m.insert(k, empty_pg.clone());
+                push(&mut v, AG::Polys(vec![pl(&t1), pl(&t2)]), gcw(vec![Geometry::MultiPolygon(MultiPolygon(m))]), "EMPTYMEM");
+            }
+            push(&mut v, AG::Pts(vec![(1, 1), (2, 0)]), gcw(vec![Geometry::MultiPoint(MultiPoint(vec![Point(c((1, 1))), Point(c((2, 0)))])), Geometry::MultiLineString(MultiLineString(vec![LineString::new(vec![])]))]), "EMPTYMEM");
+        }
+        // LSdup: open line strings with a vertex written twice in a row (zero-length segment) at every position: the same point set
+        for base in [vec![(0, 0), (2, 1)], vec![(0, 2), (1, 0), (2, 2)], vec![(1, 0), (1, 2), (2, 2)], vec![(0, 1), (2, 1), (2, 0), (0, 0)], vec![(2, 0), (0, 2)]] as [Vec<IP>; 5] {
+            for k in 0..base.len() {
+                let mut d = base.clone();
+                d.insert(k, base[k]);
+                push(&mut v, AG::Lines(vec![base.clone()]), Geometry::LineString(ls(&d)), "LSdup");
+                if k == 0 {
+                    let mut t = d.clone();
+                    t.insert(0, base[0]);
+                    push(&mut v, AG::Lines(vec![base.clone()]), Geometry::MultiLineString(MultiLineString(vec![ls(&t)])), "LSdup");
+                }
+            }
+        }
         // LSrun / LNrun: a closed line string written from every start vertex in both directions whose sides are runs of three collinear segments,
         // and every segment lying on its bottom side (end points at vertices and in the middle of the run's segments)
         let r8: Vec<IP> = vec![(0, 0), (2, 0), (4, 0), (6, 0), (6, 2), (4, 2), (2, 2), (0, 2)];
